@@ -85,6 +85,10 @@ func (iv invocation) flags() []flagSpec {
 		f = append(f, flagSpec{name: "mset"})
 	case "setkeys":
 		f = append(f, flagSpec{"setkeys", iv.keysArg(), true, false})
+	case "set+keys":
+		f = append(f, flagSpec{name: "set"}, flagSpec{"setkeys", iv.keysArg(), true, false})
+	case "mset+keys":
+		f = append(f, flagSpec{name: "mset"}, flagSpec{"setkeys", iv.keysArg(), true, false})
 	}
 	if iv.format != "jd" {
 		f = append(f, flagSpec{"f", iv.format, true, false})
@@ -105,7 +109,7 @@ func genInvocation(c *Chooser) invocation {
 	}
 	iv.yaml = c.Chance(1, 4)
 	iv.keyStyle = c.Int(4)
-	iv.arrays = []string{"list", "list", "list", "set", "mset", "setkeys"}[c.Int(6)]
+	iv.arrays = []string{"list", "list", "list", "set", "mset", "setkeys", "list", "list", "set", "mset", "setkeys", "set+keys", "mset+keys"}[c.Int(13)]
 	iv.format = []string{"jd", "jd", "patch", "merge"}[c.Int(4)]
 	if iv.arrays == "list" && c.Chance(1, 8) {
 		iv.precision = []float64{0.001, 0.5, 1}[c.Int(3)]
@@ -156,7 +160,7 @@ func genPlan(c *Chooser) ([]int, bool) {
 func genSession14(c *Chooser) Session {
 	g := genCfg(c)
 	iv := genInvocation(c)
-	if iv.arrays == "setkeys" {
+	if strings.Contains(iv.arrays, "keys") {
 		g.KeyedArr = true
 	}
 	if iv.format == "merge" {
@@ -173,7 +177,7 @@ func genSession14(c *Chooser) Session {
 	if c.Chance(1, 10) {
 		b = a.clone() // equal inputs: exit status 0
 	}
-	if iv.arrays != "list" && c.Chance(1, 5) {
+	if iv.arrays != "list" && !(iv.arrays == "setkeys" && iv.v1) && c.Chance(1, 5) {
 		// the same document with its arrays reordered: no difference under the flags
 		b = shuffleArrays(c, a, iv.arrays == "set")
 		if c.Chance(1, 2) {
@@ -260,11 +264,16 @@ func genSession14(c *Chooser) Session {
 		s.Procs = []ProcSpec{p0, p1}
 		arr := iv.arrays
 		var keys []string
-		if arr == "setkeys" {
+		switch arr {
+		case "setkeys":
 			arr, keys = "set", []string{"id"}
 			if iv.v1 {
 				arr = "list" // v1: -setkeys alone leaves arrays ordered
 			}
+		case "set+keys":
+			arr, keys = "set", []string{"id"}
+		case "mset+keys":
+			arr, keys = "mset", []string{"id"}
 		}
 		s.RT = &RoundTrip{Target: bn, Source: an, YAML: iv.yaml, Arrays: arr, Eps: iv.precision, Merge: iv.format == "merge", Keys: keys}
 	case 2: // S3 translate
@@ -417,7 +426,15 @@ func genMisuse(c *Chooser, iv invocation, s *Session, an, bn string) ProcSpec {
 	case 3:
 		fl = append(fl, flagSpec{"f", "bogus", true, false})
 	case 4:
-		fl = []flagSpec{{"t", "json2xml", true, false}}
+		// a translation that does not exist: an unknown format name, or two
+		// known formats that cannot be translated into one another
+		fm := []string{"jd", "patch", "merge", "json", "yaml", "xml", ""}
+		t := fm[c.Int(len(fm))] + "2" + fm[c.Int(len(fm))]
+		switch t {
+		case "jd2patch", "patch2jd", "jd2merge", "merge2jd", "json2yaml", "yaml2json":
+			t = "json2xml"
+		}
+		fl = []flagSpec{{"t", t, true, false}}
 		pos = []string{an}
 	case 5:
 		fl = append(fl, flagSpec{name: "p"}, flagSpec{"t", "jd2patch", true, false})
